@@ -292,7 +292,8 @@ class VersionConstraint:
         # Constraints are sorted by version**. The canonical ordering is the versions
         # order. The ordering of ``<version-constraint>`` is not significant otherwise
         # but this sort order is needed when check if a version is contained in a range.
-        constraints.sort()
+        # Sort a copy: the list of the caller is left as-is.
+        constraints = sorted(constraints)
 
         return validate_comparators(constraints)
 
